@@ -233,8 +233,10 @@ pub fn facts_to_prog(rng: &mut Rng, f: &Facts, po: &ProgOpts, case: &mut Case) {
     let present: BTreeSet<u32> = f.terms.iter().map(|t| t.0).collect();
     let absent = |rng: &mut Rng| -> u32 {
         loop {
-            let id = match rng.below(4) {
+            let id = match rng.below(6) {
                 0 => rng.range(10_000_000, 4_294_967_295) as u32,
+                // the borders of the id space and of the arena's index table (0 = its placeholder slot)
+                1 | 2 => *rng.pick(&[0u32, 0, 1, 9_999_999, 10_000_000, 1 << 31, u32::MAX]),
                 _ => rng.range(0, 9_999_999) as u32,
             };
             if !present.contains(&id) {
